@@ -153,49 +153,163 @@ type c26expPub struct {
 	retain  bool
 }
 
-func TestC26(t *testing.T) {
-	r := rt.Start(t, "C26")
-	n := r.N(1500, 30000)
-	r.Each(t, n, 0, nil, func(t *testing.T, c *rt.Case) {
-		rng := c.Rand()
-		prog := c26gen(rng)
-		var ps []string
-		for _, o := range prog {
-			ps = append(ps, o.String())
+// c26result is one executed API program.
+type c26result struct {
+	prog     []c26op
+	ps       []string
+	ka       time.Duration
+	will     bool
+	evs      []world.Ev
+	expPubs  []c26expPub
+	expSubs  []string
+	callErrs []string
+	hung     string
+}
+
+// c26exec generates and runs one API program in a fresh world (real client + real gateway + broker model).
+func c26exec(t *testing.T, rng *rand.Rand) *c26result {
+	res := &c26result{}
+	prog := c26gen(rng)
+	res.prog = prog
+	var ps []string
+	for _, o := range prog {
+		ps = append(ps, o.String())
+	}
+	res.ps = ps
+	ka := []time.Duration{10 * time.Second, 60 * time.Second, time.Hour}[rng.Intn(3)]
+	will := rng.Intn(3) == 0
+	res.ka, res.will = ka, will
+	var evs []world.Ev
+	var expPubs []c26expPub
+	var expSubs []string // "S filter qos" / "U filter"
+	var callErrs []string
+	hung := ""
+	tag := 0
+	bubble(t, func() {
+		cfg := stdClientCfg("cl")
+		cfg.KeepAlive = ka
+		cfg.PredefinedTopics = c26Predefined()
+		if will {
+			cfg.WillTopic, cfg.WillPayload, cfg.WillQOS, cfg.WillRetained = "will/cl", []byte("gone"), 1, true
 		}
-		c.Desc = strings.Join(ps, "; ")
-		ka := []time.Duration{10 * time.Second, 60 * time.Second, time.Hour}[rng.Intn(3)]
-		will := rng.Intn(3) == 0
-		var evs []world.Ev
-		var expPubs []c26expPub
-		var expSubs []string // "S filter qos" / "U filter"
-		var callErrs []string
-		hung := ""
-		tag := 0
-		bubble(t, func() {
-			cfg := stdClientCfg("cl")
-			cfg.KeepAlive = ka
-			cfg.PredefinedTopics = c26Predefined()
-			if will {
-				cfg.WillTopic, cfg.WillPayload, cfg.WillQOS, cfg.WillRetained = "will/cl", []byte("gone"), 1, true
+		f := newFullWorld(world.GWConfig{Predefined: c26Predefined(), RetryDelay: 10 * time.Second, RetryCount: 2}, world.BrokerCfg{FirstID: 1, Route: true}, cfg)
+		tr := f.W.Tr
+		call := func(name string, fn func() error) {
+			if hung != "" {
+				return
 			}
-			f := newFullWorld(world.GWConfig{Predefined: c26Predefined(), RetryDelay: 10 * time.Second, RetryCount: 2}, world.BrokerCfg{FirstID: 1, Route: true}, cfg)
-			tr := f.W.Tr
-			call := func(name string, fn func() error) {
-				if hung != "" {
+			k := f.API.Go(name, fn)
+			for i := 0; ; i++ {
+				synctest.Wait()
+				if err, ok := f.API.Result(k); ok {
+					if err != nil {
+						callErrs = append(callErrs, fmt.Sprintf("%s -> %v", name, err))
+					}
+					break
+				}
+				if i > 400 {
+					hung = name
+					break
+				}
+				time.Sleep(time.Second)
+			}
+			time.Sleep(50 * time.Millisecond)
+			synctest.Wait()
+		}
+		brokerSend := func(o c26op) {
+			cnt := 1
+			if o.kind == "burst" {
+				cnt = o.n
+			}
+			for i := 0; i < cnt; i++ {
+				// a conforming broker sends only what matches a subscription, with the granted QoS as ceiling
+				best, found := byte(0), false
+				for flt, q := range f.B.Subs(f.S) {
+					if mqttref.Match(flt, o.topic) {
+						if !found || q > best {
+							best = q
+						}
+						found = true
+					}
+				}
+				if !found {
 					return
 				}
-				k := f.API.Go(name, fn)
+				q := o.qos
+				if best < q {
+					q = best
+				}
+				tag++
+				f.B.Publish(f.S, o.topic, q, false, []byte(fmt.Sprintf("b%d", tag)))
+			}
+		}
+		cb := func(flt string) client.MessageHandlerFunc { return cbRecorder(tr, 0, flt) }
+		call("connect", f.Cl.Connect)
+		for _, o := range prog {
+			o := o
+			switch o.kind {
+			case "register":
+				call(o.String(), func() error { return f.Cl.Register(o.topic) })
+			case "subscribe":
+				call(o.String(), func() error { return f.Cl.Subscribe(o.topic, o.qos, cb(o.topic)) })
+				expSubs = append(expSubs, fmt.Sprintf("S %s %d", o.topic, o.qos))
+			case "subpre":
+				call(o.String(), func() error { return f.Cl.SubscribePredefined(o.id, o.qos, cb(c26PreName[o.id])) })
+				expSubs = append(expSubs, fmt.Sprintf("S %s %d", c26PreName[o.id], o.qos))
+			case "unsubscribe":
+				call(o.String(), func() error { return f.Cl.Unsubscribe(o.topic) })
+				expSubs = append(expSubs, "U "+o.topic)
+			case "unsubpre":
+				call(o.String(), func() error { return f.Cl.UnsubscribePredefined(o.id) })
+				expSubs = append(expSubs, "U "+c26PreName[o.id])
+			case "publish", "pubpre":
+				tag++
+				pl := fmt.Sprintf("c%d", tag)
+				q := o.qos
+				if q == 3 {
+					q = 0
+				}
+				if o.kind == "publish" {
+					call(o.String(), func() error { return f.Cl.Publish(o.topic, []byte(pl), o.qos, o.retain) })
+					expPubs = append(expPubs, c26expPub{o.topic, pl, q, o.retain})
+				} else {
+					call(o.String(), func() error { return f.Cl.PublishPredefined(o.id, []byte(pl), o.qos, o.retain) })
+					expPubs = append(expPubs, c26expPub{c26PreName[o.id], pl, q, o.retain})
+				}
+			case "ping":
+				call(o.String(), f.Cl.Ping)
+			case "connect":
+				call(o.String(), f.Cl.Connect)
+			case "disconnect":
+				call(o.String(), f.Cl.Disconnect)
+			case "third", "burst":
+				brokerSend(o)
+				synctest.Wait()
+				time.Sleep(50 * time.Millisecond)
+				synctest.Wait()
+			case "sleep":
+				if hung != "" {
+					break
+				}
+				k := f.API.Go(o.String(), func() error { return f.Cl.Sleep(o.d) })
+				synctest.Wait()
+				// broker traffic at evenly spaced instants inside the sleep
+				step := o.d / time.Duration(len(o.during)+1)
+				for _, x := range o.during {
+					time.Sleep(step)
+					brokerSend(x)
+					synctest.Wait()
+				}
 				for i := 0; ; i++ {
 					synctest.Wait()
 					if err, ok := f.API.Result(k); ok {
 						if err != nil {
-							callErrs = append(callErrs, fmt.Sprintf("%s -> %v", name, err))
+							callErrs = append(callErrs, fmt.Sprintf("%s -> %v", o.String(), err))
 						}
 						break
 					}
 					if i > 400 {
-						hung = name
+						hung = o.String()
 						break
 					}
 					time.Sleep(time.Second)
@@ -203,113 +317,23 @@ func TestC26(t *testing.T) {
 				time.Sleep(50 * time.Millisecond)
 				synctest.Wait()
 			}
-			brokerSend := func(o c26op) {
-				cnt := 1
-				if o.kind == "burst" {
-					cnt = o.n
-				}
-				for i := 0; i < cnt; i++ {
-					// a conforming broker sends only what matches a subscription, with the granted QoS as ceiling
-					best, found := byte(0), false
-					for flt, q := range f.B.Subs(f.S) {
-						if mqttref.Match(flt, o.topic) {
-							if !found || q > best {
-								best = q
-							}
-							found = true
-						}
-					}
-					if !found {
-						return
-					}
-					q := o.qos
-					if best < q {
-						q = best
-					}
-					tag++
-					f.B.Publish(f.S, o.topic, q, false, []byte(fmt.Sprintf("b%d", tag)))
-				}
-			}
-			cb := func(flt string) client.MessageHandlerFunc { return cbRecorder(tr, 0, flt) }
-			call("connect", f.Cl.Connect)
-			for _, o := range prog {
-				o := o
-				switch o.kind {
-				case "register":
-					call(o.String(), func() error { return f.Cl.Register(o.topic) })
-				case "subscribe":
-					call(o.String(), func() error { return f.Cl.Subscribe(o.topic, o.qos, cb(o.topic)) })
-					expSubs = append(expSubs, fmt.Sprintf("S %s %d", o.topic, o.qos))
-				case "subpre":
-					call(o.String(), func() error { return f.Cl.SubscribePredefined(o.id, o.qos, cb(c26PreName[o.id])) })
-					expSubs = append(expSubs, fmt.Sprintf("S %s %d", c26PreName[o.id], o.qos))
-				case "unsubscribe":
-					call(o.String(), func() error { return f.Cl.Unsubscribe(o.topic) })
-					expSubs = append(expSubs, "U "+o.topic)
-				case "unsubpre":
-					call(o.String(), func() error { return f.Cl.UnsubscribePredefined(o.id) })
-					expSubs = append(expSubs, "U "+c26PreName[o.id])
-				case "publish", "pubpre":
-					tag++
-					pl := fmt.Sprintf("c%d", tag)
-					q := o.qos
-					if q == 3 {
-						q = 0
-					}
-					if o.kind == "publish" {
-						call(o.String(), func() error { return f.Cl.Publish(o.topic, []byte(pl), o.qos, o.retain) })
-						expPubs = append(expPubs, c26expPub{o.topic, pl, q, o.retain})
-					} else {
-						call(o.String(), func() error { return f.Cl.PublishPredefined(o.id, []byte(pl), o.qos, o.retain) })
-						expPubs = append(expPubs, c26expPub{c26PreName[o.id], pl, q, o.retain})
-					}
-				case "ping":
-					call(o.String(), f.Cl.Ping)
-				case "connect":
-					call(o.String(), f.Cl.Connect)
-				case "disconnect":
-					call(o.String(), f.Cl.Disconnect)
-				case "third", "burst":
-					brokerSend(o)
-					synctest.Wait()
-					time.Sleep(50 * time.Millisecond)
-					synctest.Wait()
-				case "sleep":
-					if hung != "" {
-						break
-					}
-					k := f.API.Go(o.String(), func() error { return f.Cl.Sleep(o.d) })
-					synctest.Wait()
-					// broker traffic at evenly spaced instants inside the sleep
-					step := o.d / time.Duration(len(o.during)+1)
-					for _, x := range o.during {
-						time.Sleep(step)
-						brokerSend(x)
-						synctest.Wait()
-					}
-					for i := 0; ; i++ {
-						synctest.Wait()
-						if err, ok := f.API.Result(k); ok {
-							if err != nil {
-								callErrs = append(callErrs, fmt.Sprintf("%s -> %v", o.String(), err))
-							}
-							break
-						}
-						if i > 400 {
-							hung = o.String()
-							break
-						}
-						time.Sleep(time.Second)
-					}
-					time.Sleep(50 * time.Millisecond)
-					synctest.Wait()
-				}
-			}
-			// grace: every retry budget may run out
-			time.Sleep(45 * time.Second)
-			synctest.Wait()
-			evs = f.Close()
-		})
+		}
+		// grace: every retry budget may run out
+		time.Sleep(45 * time.Second)
+		synctest.Wait()
+		evs = f.Close()
+	})
+	res.evs, res.expPubs, res.expSubs, res.callErrs, res.hung = evs, expPubs, expSubs, callErrs, hung
+	return res
+}
+
+func TestC26(t *testing.T) {
+	r := rt.Start(t, "C26")
+	n := r.N(1500, 30000)
+	r.Each(t, n, 0, nil, func(t *testing.T, c *rt.Case) {
+		res := c26exec(t, c.Rand())
+		prog, ps, ka, will, evs, expPubs, expSubs, callErrs, hung := res.prog, res.ps, res.ka, res.will, res.evs, res.expPubs, res.expSubs, res.callErrs, res.hung
+		c.Desc = strings.Join(ps, "; ")
 		witness := map[string]interface{}{"program": ps, "keepalive": ka.String(), "will": will, "trace": world.Strings(evs, 600)}
 		if hung != "" {
 			c.Violation("call-hangs|"+opKind(hung), fmt.Sprintf("API call %s did not return within 400 virtual seconds", hung), witness)
